@@ -9,6 +9,7 @@ import (
 	"io"
 	"io/ioutil"
 	"math"
+	"mime"
 	"net/http"
 	"net/textproto"
 	"net/url"
@@ -620,6 +621,12 @@ func (g *GoFakeS3) createObjectBrowserUpload(bucket string, w http.ResponseWrite
 		return err
 	}
 
+	// The form parser stops at the closing delimiter and takes the end of the
+	// body for one: what it does not read, and whether the form was complete,
+	// is checked below.
+	body := &formBody{ReadCloser: r.Body}
+	r.Body = body
+
 	const _24MB = (1 << 20) * 24 // maximum amount of memory before temp files are used
 	if err := r.ParseMultipartForm(_24MB); nil != err {
 		return ErrMalformedPOSTRequest
@@ -627,6 +634,16 @@ func (g *GoFakeS3) createObjectBrowserUpload(bucket string, w http.ResponseWrite
 	// net/http removes the temporary files of the request it handed to the
 	// server's handler; r may be a copy of that request made by a middleware.
 	defer r.MultipartForm.RemoveAll()
+
+	// As for any other upload, a body shorter than its declared length is
+	// incomplete; and a form that ends before its closing delimiter has lost
+	// its last fields (metadata, the Content-MD5) on the way.
+	if _, err := io.Copy(ioutil.Discard, r.Body); err != nil || (r.ContentLength >= 0 && body.n != r.ContentLength) {
+		return ErrIncompleteBody
+	}
+	if !body.sawClosingDelimiter(r.Header.Get("Content-Type")) {
+		return ErrMalformedPOSTRequest
+	}
 
 	keyValues := r.MultipartForm.Value["key"]
 	if len(keyValues) != 1 {
@@ -688,6 +705,35 @@ func (g *GoFakeS3) createObjectBrowserUpload(bucket string, w http.ResponseWrite
 
 	w.Header().Set("ETag", `"`+hex.EncodeToString(rdr.Sum(nil))+`"`)
 	return nil
+}
+
+// formBody counts the bytes of a form upload's body and keeps its last ones.
+type formBody struct {
+	io.ReadCloser
+	n    int64
+	tail []byte
+}
+
+func (b *formBody) Read(p []byte) (int, error) {
+	const keep = 512 // a boundary has at most 70 characters
+	n, err := b.ReadCloser.Read(p)
+	b.n += int64(n)
+	b.tail = append(b.tail, p[:n]...)
+	if len(b.tail) > keep {
+		b.tail = b.tail[len(b.tail)-keep:]
+	}
+	return n, err
+}
+
+// sawClosingDelimiter reports whether the body ended with the closing
+// delimiter of the multipart boundary named by contentType (a short epilogue
+// after it is tolerated).
+func (b *formBody) sawClosingDelimiter(contentType string) bool {
+	_, params, err := mime.ParseMediaType(contentType)
+	if err != nil || params["boundary"] == "" {
+		return false
+	}
+	return strings.Contains(string(b.tail), "--"+params["boundary"]+"--")
 }
 
 // CreateObject creates a new S3 object.
